@@ -3,7 +3,7 @@ from mirsym.harness import Check
 from . import scen
 from .C01 import ASSUME
 
-QUICK = ["seq2", "two_if", "catch_none", "msg_set"]
+QUICK = ["seq2", "two_if", "catch_none", "msg_set", "hook_completed_wf", "hook_completed_act"]
 
 
 def main(tier, seed):
